@@ -63,7 +63,7 @@ def run(ctx):
                 'with and without the bank annotations `{I1}` / `_suffix` annotations on leaf categories; awkward tokens (brackets, '
                 'angle brackets, quotes, non-ASCII; for Japanese without / { }); truncated PTB lines must be rejected. '
                 'non-trivial = distinct lines of trees with >= 2 leaves read back successfully')
-    cats = {'en': gen_cat.inventory('en'), 'ja': gen_cat.inventory('ja')}
+    cats = {'en': gen_cat.tree_cats('en'), 'ja': gen_cat.tree_cats('ja')}
     # the Japanese bank format names its rules by the bank's symbols; the reader's own table (read
     # from the imported module, not from its source) says which ones it knows
     from depccg.tools.ja.reader import combinators as ja_bank_symbols
